@@ -61,6 +61,16 @@ def _preread(t, what):
 PREREADS = ["none", "pos", "quat", "se3", "str"]
 
 
+def _dec_clock():
+    c = geom.Clock(0.3, 0.1)       # decimal stamps (not exact in binary): max_diff is then given half a tick larger, so no comparison sits on a boundary
+    c.margin = True
+    return c
+
+
+# the shared clocks + nanosecond-sized ticks (a tick is below numpy's default absolute tolerance) + decimal stamps with decimal offsets
+CLOCKS5 = geom.CLOCKS + [geom.Clock(0.0, 2.0 ** -30), _dec_clock()]
+
+
 def execute(case, clock, built, order_rots, pre=("none", "none"), same=False):
     """run the real associate_trajectories on gamma(case); return the alpha-abstracted outcome"""
     from evo.core import sync
@@ -71,7 +81,7 @@ def execute(case, clock, built, order_rots, pre=("none", "none"), same=False):
     _preread(ta, pre[0])
     _preread(tb, pre[1])
     sa, sb = geom.snapshot(ta), geom.snapshot(tb)
-    md = clock.dt * case["md"]
+    md = clock.dt * (case["md"] + (0.5 if getattr(clock, "margin", False) else 0.0))
     off = clock.dt * case["off"]
     try:
         oa, ob = sync.associate_trajectories(ta, tb, max_diff=md, offset_2=off)
@@ -98,11 +108,11 @@ def execute(case, clock, built, order_rots, pre=("none", "none"), same=False):
 def _exec_job(job):
     n, v, c, seed = job
     builts = [("se3", "se3"), ("pq", "pq"), ("se3", "pq"), ("pq", "se3")]
-    k = (n + v * 3 + seed) % len(geom.CLOCKS)
+    k = (n + v * 3 + seed) % len(CLOCKS5)
     built = builts[(n + v + seed) % 4]
     rots = geom.O24[(n + seed) % 24:] + geom.O24[:(n + seed) % 24]
     pre = (PREREADS[(n // 4 + v) % 5], PREREADS[(n // 20 + 2 * v) % 5])
-    return execute(c, geom.CLOCKS[k], built, rots, pre, same=(n + v) % 2 == 0), k, built, pre
+    return execute(c, CLOCKS5[k], built, rots, pre, same=(n + v) % 2 == 0), k, built, pre
 
 
 def random_case(rng, maxn):
@@ -148,11 +158,12 @@ def run(rep, tier, seed):
     outs = core.pmap(_exec_job, jobs, chunksize=500)
     for (n, v, c, _), (o, k, built, pre) in zip(jobs, outs):
         if True:
-            clock = geom.CLOCKS[k]
+            clock = CLOCKS5[k]
             tid = "m%d.%d" % (n, v)
             t = {"id": tid, "A": c["A"], "B": c["B"], "md": c["md"], "off": c["off"], "o": o}
             traces.append(t)
-            by_id[tid] = (c, {"clock": [clock.t0, clock.dt], "built": built, "pre": pre, "same": (n + v) % 2 == 0}, o)
+            by_id[tid] = (c, {"clock": [clock.t0, clock.dt], "built": built, "pre": pre, "same": (n + v) % 2 == 0,
+                                 "margin": bool(getattr(clock, "margin", False))}, o)
             mo = dict(c["m"])
             if mo != o:
                 rep.drifted("associate(%s,%s,md=%d,off=%d): model %s, code %s" % (c["A"], c["B"], c["md"], c["off"], mo, o))
@@ -245,6 +256,7 @@ def replay(rep, path):
     d = body["detail"]
     c, g = d["case"], d["gamma"]
     clock = geom.Clock(*g["clock"])
+    clock.margin = bool(g.get("margin", False))
     o = execute(c, clock, tuple(g.get("built", ("se3", "se3"))), geom.O24, tuple(g.get("pre", ("none", "none"))), same=g.get("same", False))
     t = {"id": "replay", "A": c["A"], "B": c["B"], "md": c["md"], "off": c["off"], "o": o}
     rej = core.validate("sync", "Trace_Sync", [t])
